@@ -56,12 +56,12 @@ func marksOf(m *sarama.ConsumerMessage) []int {
 	return out
 }
 
-func runOne(seed int64, sc conslog.E2EScenario, panics []bool, kinds []int) work {
+func runOne(seed int64, sc conslog.E2EScenario, panics []bool, kinds []int, shapes []int) work {
 	var kindNames []string
 	for i, p := range panics {
-		sc.Interceptors = append(sc.Interceptors, &conslog.CountingInterceptor{Index: i, Panics: p, Kind: kinds[i]})
+		sc.Interceptors = append(sc.Interceptors, &conslog.CountingInterceptor{Index: i, Panics: p, Kind: kinds[i], Shape: shapes[i]})
 		if p {
-			kindNames = append(kindNames, conslog.PanicKinds[kinds[i]])
+			kindNames = append(kindNames, conslog.PanicKinds[kinds[i]]+"/"+conslog.InterceptorShapes[shapes[i]])
 		} else {
 			kindNames = append(kindNames, "-")
 		}
@@ -167,6 +167,7 @@ func main() {
 		sc     conslog.E2EScenario
 		panics []bool
 		kinds  []int
+		shapes []int
 	}
 	var jobs []job
 	for i := 0; i < *n; i++ {
@@ -193,20 +194,26 @@ func main() {
 		nrec := len(g.Log.Visible(sc.ReadCommitted, sc.Oldest))
 		panics := make([]bool, 1+rng.Intn(3))
 		kinds := make([]int, len(panics))
+		shapes := make([]int, len(panics))
 		for k := range panics {
 			panics[k] = rng.Intn(3) == 0
 			kinds[k] = rng.Intn(len(conslog.PanicKinds))
+			shapes[k] = rng.Intn(len(conslog.InterceptorShapes))
 		}
 		if i >= 1 && i <= 3*len(conslog.PanicKinds) {
 			// corpus: every kind of panic value at every chain position of a 3-interceptor chain, half of them with the
 			// reader stalling so that the panicking interceptor also runs on the slow-reader path
-			panics, kinds = make([]bool, 3), make([]int, 3)
+			panics, kinds, shapes = make([]bool, 3), make([]int, 3), make([]int, 3)
 			panics[(i-1)%3] = true
 			kinds[(i-1)%3] = (i - 1) / 3
+			// the panicking interceptor (and, shifted, its neighbours) also come as values of unhashable dynamic types
+			for k := range shapes {
+				shapes[k] = (i + k) % len(conslog.InterceptorShapes)
+			}
 		}
 		if i == 0 {
 			// the replayed witness: unbuffered channel, one interceptor, the reader pauses before the third message
-			sc.ChannelBuffer, panics, kinds = 0, []bool{false}, []int{0}
+			sc.ChannelBuffer, panics, kinds, shapes = 0, []bool{false}, []int{0}, []int{0}
 			sc.Stall[2] = true
 		} else {
 			for k := rng.Intn(3); k >= 0 && nrec > 0; k-- {
@@ -222,7 +229,7 @@ func main() {
 				sc.Script = append(sc.Script, conslog.Directive{Fault: 1, Err: 6})
 			}
 		}
-		jobs = append(jobs, job{sc, panics, kinds})
+		jobs = append(jobs, job{sc, panics, kinds, shapes})
 	}
 	results := make([]work, len(jobs))
 	var wg sync.WaitGroup
@@ -233,7 +240,7 @@ func main() {
 		go func(i int) {
 			defer wg.Done()
 			defer func() { <-sem }()
-			results[i] = runOne(*seed*104729+int64(i), jobs[i].sc, jobs[i].panics, jobs[i].kinds)
+			results[i] = runOne(*seed*104729+int64(i), jobs[i].sc, jobs[i].panics, jobs[i].kinds, jobs[i].shapes)
 		}(i)
 	}
 	wg.Wait()
